@@ -41,7 +41,7 @@ P = {
          "Quick: all values up to 16 bits, per-channel exhaustive + random for 24-bit sources; thorough: every source value of every pair.", "4 C13"),
  "c14": ("exploration", "reference model of glyph placement (atlas cell designated by the font's mapping, read with font.image.pixel) compared with the recorded pixel map of Text::draw on unbounded and bounded targets; data checks over every built-in font and mapping incl. all 1.1 million scalar values per mapping; range mappings across the surrogate gap; fonts with tens of thousands of glyphs; special characters at string starts",
          "All built-in fonts of the working tree x every mapped character + unmapped ones x colour/decoration combinations; custom fonts with spacing and odd atlases.", "4 C14"),
- "c15": ("exploration", "relational oracles on recorded pixel maps and returned positions: draw vs measure_string, chained drawing vs concatenation, alignment/baseline geometry of the painted line boxes, multi-line vs separately drawn lines, CRLF vs LF, same position and visible part on bounded targets; exhaustive sweep of LineHeight::to_absolute against floor(base * percent / 100); special characters (byte order mark, separators, non-characters) at string and line starts",
+ "c15": ("exploration", "relational oracles on recorded pixel maps and returned positions: draw vs measure_string, chained drawing vs concatenation, alignment/baseline geometry of the painted line boxes, multi-line vs separately drawn lines, CRLF vs LF, same position and visible part on bounded targets; exhaustive sweep of LineHeight::to_absolute against floor(base * percent / 100); special characters (byte order mark, separators, non-characters) at string and line starts; every text also drawn with a style assembled by assigning the public fields of a style constructed for another font",
          "Strings incl. empty lines/trailing newline/CRLF/unmapped characters x built-in fonts x alignments x baselines x line heights x decorations x positions.", "4 C15"),
  "c16": ("exploration", "reference model (explicit point sets / i64 interval pairs) compared with the public Rectangle methods (contains and offset through the inherent methods and the ContainsPoint/OffsetOutline traits, points() also through count/last/fold/nth from partly consumed states); exhaustive over a small grid, random up to +-2^20; operands from powers of two, their neighbours and 1.5 x 2^k",
          "All ordered pairs of grid rectangles incl. zero sizes, every rectangle x anchors x sizes x offsets, plus random large rectangles.", "4 C16"),
